@@ -32,7 +32,8 @@ Record st := mkSt {
   (* flags *)
   process : bool; quiet : bool; inl : bool; asis : bool; par : bool; verse : bool; ws : bool;
   (* buffers *)
-  buf : str; wout : str; raw : str; bf : option bfinfo;
+  buf : list str; wout : list str;      (* written chunks, newest first: the text is [flat] of them *)
+  raw : str; bf : option bfinfo;
   (* scopes *)
   sblock : list scope; sinline : list scope; sif : list scope;          (* top of stack = last element, as in Go *)
   (* counters and collected information *)
@@ -47,6 +48,7 @@ Record st := mkSt {
   xcount : nat; xexh : bool;                           (* expansions since that invocation; budget reported as exhausted *)
   cfile : str; incstack : list str;                   (* current file; files being processed, innermost last *)
   has_cur : bool;                                     (* ctx.loc has a current block (false at end of file) *)
+  elided : bool;                                      (* last macro was elided because of a format restriction *)
   format : str;
   (* exporter-private state *)
   fontstack : list str; xverse : bool; incell : bool; nesting : Z;
@@ -61,7 +63,7 @@ Record st := mkSt {
   <macro; args; prev; line; text; process; quiet; inl; asis; par; verse; ws; buf; wout; raw; bf; sblock; sinline; sif;
    toc; lox_toc; lox_nav; lox_lof; lox_lot; lox_lop; ids; images;
    tcell; tcount; ttit; tcols; tid; ttitle; tscope; ttitscope; tinfo; fig; vused; vcount; cid; cidx;
-   params; dtags; mtags; ifdepth; udef; umacros; ivars; cdepth; cloc; xcount; xexh; cfile; incstack; has_cur; format; fontstack; xverse; incell; nesting; existing; fs; libdirs; unrestricted; mode; files; curfile; navtext; diags; panicked>.
+   params; dtags; mtags; ifdepth; udef; umacros; ivars; cdepth; cloc; xcount; xexh; cfile; incstack; has_cur; elided; format; fontstack; xverse; incell; nesting; existing; fs; libdirs; unrestricted; mode; files; curfile; navtext; diags; panicked>.
 #[export] Instance eta_toc : Settable _ := settable! mkToc <hasPart; hasChapter; hcount; pcount; ccount; scount; sscount; pnum; cnum; snum; ssnum>.
 
 (* ctx.Error: respects quiet; location from the outermost user-macro call if any, else the current block *)
@@ -73,11 +75,12 @@ Definition err (kind : string) (s : st) : st :=
            end in
   s <| diags ::= cons d |>.      (* newest first; [diagnostics] gives them in order *)
 
-Definition diagnostics (s : st) : list diag := rev (diags s).
+Definition diagnostics (s : st) : list diag := rev_append (diags s) [].
 
 (* ctx.W(): paragraph buffer while in a paragraph, the output writer otherwise *)
-Definition w (x : str) (s : st) : st := if par s then s <| buf ::= fun b => b ++ x |> else s <| wout ::= fun b => b ++ x |>.
-Definition wo (x : str) (s : st) : st := s <| wout ::= fun b => b ++ x |>.
+Definition flat (l : list str) : str := fold_left (fun acc x => x ++ acc) l [].
+Definition w (x : str) (s : st) : st := if par s then s <| buf ::= cons x |> else s <| wout ::= cons x |>.
+Definition wo (x : str) (s : st) : st := s <| wout ::= cons x |>.
 
 Definition top {A} (l : list A) : option A := last (map Some l) None.
 Definition pop {A} (l : list A) : list A := removelast l.
